@@ -390,3 +390,8 @@ Definition no_dict_answer (P : list backend) : Prop :=
 
 (* what create does with one provider's answer *)
 Definition create_accepts (r : resp) : option Z := match r with RVal CPlaylist id => Some id | _ => None end.
+
+(* ------------------------------------------------------------------ full statements modulo the recorded findings *)
+
+(* what playlists.delete hands through when the answer is neither None, a bool nor an exception *)
+Definition delete_passthrough (r : resp) : value := match r with RInt z => VInt z | _ => VRaw end.
